@@ -17,6 +17,16 @@ def run(chk):
     res = vlib.run_tlc("MC_C01", cfg_text=cfg, timeout=3000, heap="16g")
     chk.add_tlc(res, "MC_C01")
     dt.replay(chk, res.cases, "C01", cli_sample=200 if quick else 2000)
+    # beyond the exhaustive bound: long random scripts drawn by `tlc -simulate` from the generation mode of DiffTouch
+    for sparse in ("FALSE", "TRUE"):
+        cfgs = rc.set_consts("MC_C01sim", GenLen=10 if quick else 14, GenSparse=sparse, MaxBlocks=1 if quick else 2)
+        rs = vlib.run_tlc("MC_C01", cfg_text=cfgs, timeout=3000, simulate=40 if quick else 600, depth=90, seed=chk.seed % 100000,
+                          workers=4, heap="8g")
+        if not rs.ok:
+            raise vlib.ToolError("DiffTouch simulation failed: %s" % (rs.violation or "")[:500])
+        chk.notes.setdefault("tlc_runs", []).append({"what": "MC_C01sim -simulate GenSparse=%s" % sparse, "behaviours": len(rs.cases),
+                                                     "wall_s": round(rs.wall, 1)})
+        dt.replay(chk, rs.cases, "C01", cli_sample=0)
     from props import diff_long
     diff_long.run(chk, n=40 if quick else 400)
     # acceptance of git's own diffs whatever the files contain (DiffText.tla: unidiff's outer loop)
